@@ -269,7 +269,9 @@ def step (st : DState) (op impl : String) : DState × StepOut :=
           ++ (if ok1 v' then [] else [s!"C12.ok {firstBad v' timerOk}"])
           -- delivery level: a message (timer id, k) handled twice
           ++ (if deliveredOk v' then [] else ["C12.delivered handled-twice"])
-          ++ (if okPrompt v' then [] else [s!"C12.okPrompt {firstBad v' timerPromptOk}"])
+          ++ (if okPrompt1 v' then [] else [s!"C12.okPrompt {firstBad v' timerPromptOk}"])
+          -- the positive half: a kill_after / exit_after that has acted and a target that is still there
+          ++ (if v'.timers.all (stopsOk v') then [] else [s!"C12.stops {firstBad v' stopsOk}"])
         let resChanged := (m'.timers.map (·.res)).take st.m.timers.length != st.m.timers.map (·.res)
         let nt := !(newAttempts st.m.timers m'.timers).isEmpty || resChanged
                     || (st.m.target.exit.isNone && m'.target.exit.isSome)
